@@ -34,12 +34,12 @@ func hd10Key(id string) *did.VerificationMethod {
 	return &did.VerificationMethod{ID: did.DIDURL{DID: hTestDID, Fragment: id}, Type: "JsonWebKey2020", Controller: hTestDID}
 }
 
-// hd10Doc builds a document with n elements with symbolic ids in the component under focus and
-// one fixed element in each other component.
-func hd10Doc(focus, n, idlen int) did.Document {
-	ids := make([]string, n)
+// hd10Doc builds a document with len(lens) elements with symbolic ids (of the given lengths) in the
+// component under focus and one fixed element in each other component.
+func hd10Doc(focus int, lens []int) did.Document {
+	ids := make([]string, len(lens))
 	for i := range ids {
-		ids[i] = vString(vLen(1, idlen))
+		ids[i] = vString(lens[i])
 		for j := 0; j < i; j++ {
 			vAssume(ids[i] != ids[j]) // ids are unique within one document
 		}
@@ -185,8 +185,20 @@ func H10d() {
 		nbmax = sum - na // bound on the total number of elements in focus
 	}
 	nb := vLen(1, nbmax)
-	a := hd10Doc(focus, na, idlen)
-	b := hd10Doc(focus, nb, idlen)
+	// all ids have idlen bytes, except that one of them (any, or none) is one byte shorter, so that
+	// one id can be a proper prefix of another
+	lens := make([]int, na+nb)
+	for i := range lens {
+		lens[i] = idlen
+	}
+	if idlen > 1 {
+		if short := vChoice(na + nb + 1); short < na+nb {
+			lens[short] = idlen - 1
+			vCover("prefix-length")
+		}
+	}
+	a := hd10Doc(focus, lens[:na])
+	b := hd10Doc(focus, lens[na:])
 
 	r1 := mergeDocuments(a, b)
 	r3 := mergeDocuments(b, a)
@@ -213,8 +225,8 @@ func H10d() {
 }
 
 func H10d_twin() {
-	a := hd10Doc(1, 1, 1)
-	b := hd10Doc(1, 1, 1)
+	a := hd10Doc(1, []int{1})
+	b := hd10Doc(1, []int{1})
 	r := mergeDocuments(a, b)
 	if len(r.Service) == 2 && r.Service[0].ID.String() == b.Service[0].ID.String() {
 		vAssert(false, "H10d_twin.reach: reachable")
